@@ -19,6 +19,7 @@ import GrcovModel.Props.C03Html
 import GrcovModel.Props.C03FnOrder
 import GrcovModel.Props.C03HtmlDisk
 import GrcovModel.Props.C03Links
+import GrcovModel.Props.C03Run
 namespace Grcov.Props.C03
 open Grcov AList Grcov.Writers
 
